@@ -2,6 +2,7 @@ import Poulpy.Driver.Util
 import Poulpy.Model.Avx
 import Poulpy.Model.AvxQ120
 import Poulpy.Model.AvxNtt
+import Poulpy.Model.AvxCnv
 /-
 Driver of the C10 lane model.  Wire format (same tokens as `pvh avx`, see harness/src/avx_kern.rs):
   `id avx kern be=<fref|favx|nref|navx> op=<name> [b=] [lsh=] [k=] [p=] [ow=0|1] x=.. [a=..] [c=..]`
@@ -230,9 +231,22 @@ def nk (ts : List String) : String :=
 
 end Nk
 
+/-- `cnvk be=<fref|favx> dst= off= asz= x= y=`: `I64Ops::i64_convolution_by_const` on one block (twin of `pvh avx cnvk`);
+`old=1` evaluates the kernels before repair 34 -/
+def cnvk (ts : List String) : String :=
+  let a := w64s (kvInts ts "x")
+  let b := w64s (kvInts ts "y")
+  let (d, o, sz) := (kvNat ts "dst", kvNat ts "off", kvNat ts "asz")
+  if sz == 0 then "panic:assert"
+  else
+    let r := if !(isAvx ts) then Avx.Cnv.byConstRef d o a sz b
+             else if kvNat ts "old" == 1 then Avx.Cnv.byConstAvxOld d o a sz b else Avx.Cnv.byConstAvx d o a sz b
+    show64 r
+
 def handle (ts : List String) : String :=
   match ts with
   | "q120" :: rest => q120 rest
+  | "cnvk" :: rest => cnvk rest
   | "nk" :: rest => nk rest
   | "kern" :: rest =>
     let op := (kv rest "op").getD ""
